@@ -28,6 +28,8 @@ INTERNAL = re.compile(r"eval stack underflow|pop from an empty|has no attribute 
                       r"has no attribute 'return_addr'|has no attribute 'params'|"
                       r"'NoneType' object has no attribute 'vars'|KeyError|has no attribute '_\w+'|at instruction None")
 HALT = re.compile(r'division by zero|modulo by zero|float modulo|float division')
+# an operator applied to values of the wrong kind (a string, or the time pattern the `time` register holds after `time at`)
+TYPEERR = re.compile(r'unsupported operand type|not supported between instances|can only concatenate|must be real number|bad operand type')
 
 KEYWORDS = ("all and as assign at begin break breakpoint column cycle default define else end from get group if in location logical "
             "not null off on or print printf println pause raw row repeat return rgb set stage to units while with wait zone").split()
